@@ -89,6 +89,9 @@ GM = "qats/stats/gumbelmin.py"
 CO = "qats/fatigue/corrections.py"
 anchor("gh_corrected", "means ranges uts", CO, "goodman_haigh", ("assign", "corrected_ranges", 0), inline=[])
 MO = "qats/motions.py"
+for _i in range(3):
+    for _j in range(3):
+        anchor("mo_r%d%d" % (_i, _j), "rx ry rz", MO, "transform_motion", ("assign_elt", "trans", 0, _i, _j), inline=[])
 
 
 # ----------------------------------------------------------------------------------------------------------
@@ -157,6 +160,14 @@ def pick_expr(fn, pick):
         if len(hits) <= k:
             raise TranslateError("assignment #%d to `%s` not found" % (k, tgt))
         return hits[k]
+    if kind == "assign_elt":
+        s0, v = pick_expr(fn, ("assign", pick[1], pick[2]))
+        if isinstance(v, ast.Call) and v.args:
+            v = v.args[0]
+        try:
+            return s0, v.elts[pick[3]].elts[pick[4]]
+        except (AttributeError, IndexError):
+            raise TranslateError("matrix element [%d][%d] of `%s` not found" % (pick[3], pick[4], pick[1]))
     if kind == "return":
         hits = [(s, s.value) for s in st if isinstance(s, ast.Return) and s.value is not None]
         if len(hits) <= pick[1]:
